@@ -1,4 +1,6 @@
 import PprofVerif.Lemmas.TrimTotal
+import PprofVerif.Lemmas.ComposeTrimOrder
+import PprofVerif.Lemmas.TrimTreeMain
 /-!
 # C05 — trimming hides entries but never changes the numbers of those shown
 
@@ -95,5 +97,225 @@ example : let ss : List (GSample Nat) := [{ frames := [1, 2, 3], w := 7, d := 0 
     ((newGraph K ss).weight 1 3 = ⟨9, 0⟩ ∧ (newGraph K ss).residual 1 3 = true ∧
      (newGraph K ss).hasEdge 1 2 = false ∧ (newGraph K ss).cum 3 = ⟨9, 0⟩ ∧ (newGraph K ss).flat 3 = ⟨9, 0⟩ ∧
      (newGraph allKept ss).weight 1 3 = ⟨2, 0⟩) := by decide
+
+/-! ## `Graph.TrimTree` (call trees: dot and callgrind reports with `call_tree`)
+
+`trimNewTree sortIn K g nodes` is the model of `g.TrimTree(kept)` (`Model/TrimTree.lean`: the loop
+over `g.Nodes` with its two `panic` sites, the re-parenting of the children of a removed node, the
+`Residual` mark, followed by `RemoveRedundantEdges`) applied to a tree `g = newTree ss`; `nodes` is
+`g.Nodes` — the listed nodes in ANY order (the code sorts them, and collects them from maps) —,
+`st.ins` / `st.outs` are the `In` / `Out` maps of all nodes afterwards.  `removed` is the set of
+listed nodes that are not kept.  All statements: every sample list, every kept set, every order of
+the node list, every `EdgeMap.Sort` that returns a permutation. -/
+section TrimTree
+open PV.TrimTree
+
+/-- in a tree built by `newTree` every node has exactly one parent — the node its path names —, so
+`len(n.In) ≤ 1` for every node. -/
+theorem newTree_single_parent (ss : List (GSample κ)) (a a' b : List κ)
+    (h : (newTree ss).hasEdge a b = true) (h' : (newTree ss).hasEdge a' b = true) :
+    a = a' ∧ a = b.dropLast ∧ 2 ≤ b.length ∧ (inEdges (newTree ss).edges b).length ≤ 1 := by
+  have hF := newTree_pathForest ss
+  have hm : ∀ x, (newTree ss).hasEdge x b = true → 2 ≤ b.length ∧ x = b.dropLast := by
+    intro x hx
+    have : (tfind (newTree ss).edges (x, b)).isSome = true := by rw [← thas_eq_tfind]; exact hx
+    obtain ⟨e, he⟩ := Option.isSome_iff_exists.mp this
+    exact hF.shape _ _ _ (mem_of_tfind he)
+  refine ⟨(hm a h).2.trans (hm a' h').2.symm, (hm a h).2, (hm a h).1, ?_⟩
+  exact inEdges_le_one (inv_initial hF (fun _ => true)) b (by simp [removedOf])
+
+/-- neither `panic("TrimTree only works on trees")` nor `panic("Get parent assertion failed…")` is
+reachable when TrimTree runs on a tree built by `newTree` (nor is the model's fuel ever exhausted). -/
+theorem trimTree_never_panics (sortIn : ETable (List κ) → ETable (List κ)) (hsort : ∀ l, (sortIn l).Perm l)
+    (K : List κ → Bool) (ss : List (GSample κ)) (nodes : List (List κ × NodeAcc))
+    (hperm : nodes.Perm (newTree ss).shownNodes) :
+    ∃ st, trimNewTree sortIn K (newTree ss) nodes = .ok st := by
+  obtain ⟨st, hs, _, _⟩ := trimNewTree_ok sortIn hsort K ss nodes hperm
+  exact ⟨st, hs⟩
+
+/-- the node list afterwards is exactly the kept listed nodes (in their order), each with the flat
+and cum it had: the untrimmed call-tree figures of the specification. -/
+theorem trimTree_preserves_values (sortIn : ETable (List κ) → ETable (List κ)) (hsort : ∀ l, (sortIn l).Perm l)
+    (K : List κ → Bool) (ss : List (GSample κ)) (nodes : List (List κ × NodeAcc))
+    (hperm : nodes.Perm (newTree ss).shownNodes) (st : TState (List κ))
+    (h : trimNewTree sortIn K (newTree ss) nodes = .ok st) :
+    st.nodes = nodes.filter (fun c => K c.1) ∧
+    ∀ n a, (n, a) ∈ st.nodes → K n = true ∧ (n, a) ∈ (newTree ss).shownNodes ∧
+      a.flat = flatSpec (ss.map treeSample) n ∧ a.cum = cumSpec (ss.map treeSample) n := by
+  obtain ⟨st', hs, _, hn⟩ := trimNewTree_ok sortIn hsort K ss nodes hperm
+  rw [h] at hs
+  obtain rfl := Outcome.ok.inj hs
+  refine ⟨hn, ?_⟩
+  intro n a hm
+  rw [hn] at hm
+  obtain ⟨hm1, hk⟩ := List.mem_filter.mp hm
+  have hsh := hperm.mem_iff.mp hm1
+  exact ⟨hk, hsh, tree_shownNodes_spec ss n a hsh⟩
+
+/-- the edges afterwards, seen from either end (`b.In[a]` for every `b` that was not removed,
+`a.Out[b]` for every `a` that was not removed — so for every listed node, and the two views agree):
+the edge `a → b` exists iff `b` was not removed, had a parent edge in the tree and `a` is `b`'s
+nearest ancestor that was not removed; it has the weight of `b`'s original parent edge (= Σ over the
+samples through `b`) and is residual iff `a` is not `b`'s original parent (`GSpec.trimEdgeSpec`). -/
+theorem trimTree_marks_residual (sortIn : ETable (List κ) → ETable (List κ)) (hsort : ∀ l, (sortIn l).Perm l)
+    (K : List κ → Bool) (ss : List (GSample κ)) (nodes : List (List κ × NodeAcc))
+    (hperm : nodes.Perm (newTree ss).shownNodes) (st : TState (List κ))
+    (h : trimNewTree sortIn K (newTree ss) nodes = .ok st) :
+    let removed := removedOf K (nodes.map Prod.fst)
+    (∀ a b, removed b = false →
+      (tfind st.ins (a, b)).map (fun e => (e.weight, e.residual)) = trimEdgeSpec removed ss a b) ∧
+    (∀ a b, removed a = false →
+      (tfind st.outs (a, b)).map (fun e => (e.weight, e.residual)) = trimEdgeSpec removed ss a b) := by
+  obtain ⟨st', hs, hI, _⟩ := trimNewTree_ok sortIn hsort K ss nodes hperm
+  rw [h] at hs
+  obtain rfl := Outcome.ok.inj hs
+  exact ⟨fun a b hb => by rw [hI.insSpec a b hb, specE_eq_trimEdgeSpec],
+    fun a b ha => by rw [hI.outsSpec a b ha, specE_eq_trimEdgeSpec]⟩
+
+/-- what that specification means: an edge `a → b` of the trimmed tree joins a surviving node to its
+surviving descendant across removed nodes only; it is marked residual iff at least one removed node
+is bypassed (then `b`'s own parent is among them), and an edge that is not residual is the original
+parent edge with its original weight. -/
+theorem trimTree_residual_iff_bypass (removed : List κ → Bool) (ss : List (GSample κ)) (a b : List κ)
+    (w : WD) (r : Bool) (h : trimEdgeSpec removed ss a b = some (w, r)) :
+    removed b = false ∧ removed a = false ∧ a ∈ ancestors b ∧
+    (∀ x ∈ ancestors b, a.length < x.length → removed x = true) ∧
+    (r = true ↔ a ≠ b.dropLast) ∧ (r = true → removed b.dropLast = true) ∧
+    w = edgeSpec (ss.map treeSample) b.dropLast b ∧ edgeExists (ss.map treeSample) b.dropLast b = true :=
+  trimEdgeSpec_some h
+
+/-- no edge of a node that is still listed mentions a removed node; and when every node of the tree
+is listed (no node with all-zero figures, which `selectNodesForGraph` leaves out of `g.Nodes`
+although it stays linked) both ends of every such edge are kept nodes. -/
+theorem trimTree_no_dangling (sortIn : ETable (List κ) → ETable (List κ)) (hsort : ∀ l, (sortIn l).Perm l)
+    (K : List κ → Bool) (ss : List (GSample κ)) (nodes : List (List κ × NodeAcc))
+    (hperm : nodes.Perm (newTree ss).shownNodes) (st : TState (List κ))
+    (h : trimNewTree sortIn K (newTree ss) nodes = .ok st) (a b : List κ) (e : EdgeAcc)
+    (he : (tfind st.ins (a, b) = some e ∧ removedOf K (nodes.map Prod.fst) b = false) ∨
+          (tfind st.outs (a, b) = some e ∧ removedOf K (nodes.map Prod.fst) a = false)) :
+    (removedOf K (nodes.map Prod.fst) a = false ∧ removedOf K (nodes.map Prod.fst) b = false) ∧
+    ((∀ n, (newTree ss).hasNode n = true → n ∈ nodes.map Prod.fst) → K a = true ∧ K b = true) := by
+  obtain ⟨h1, h2⟩ := trimTree_marks_residual sortIn hsort K ss nodes hperm st h
+  have hspec : trimEdgeSpec (removedOf K (nodes.map Prod.fst)) ss a b = some (e.weight, e.residual) := by
+    rcases he with ⟨hf, hr⟩ | ⟨hf, hr⟩
+    · rw [← h1 a b hr, hf]; rfl
+    · rw [← h2 a b hr, hf]; rfl
+  obtain ⟨hb, ha, hanc, _, _, _, _, hex⟩ := trimEdgeSpec_some hspec
+  refine ⟨⟨ha, hb⟩, ?_⟩
+  intro hall
+  have hnb : (newTree ss).hasNode b = true :=
+    newTree_hasNode_of_edge ss b.dropLast b (by rw [tree_edge_exists_iff]; exact hex)
+  have hna := newTree_hasNode_ancestor ss b a hnb hanc
+  have hla := hall a hna
+  have hlb := hall b hnb
+  simp only [removedOf, hla, hlb, decide_true, Bool.true_and, Bool.not_eq_false'] at ha hb
+  exact ⟨ha, hb⟩
+
+-- non-vacuity: samples main→a→b (7) and main→a (2); the middle node [1,2] is removed: the leaf
+-- [1,2,3] is re-attached to [1] by a residual edge of weight 7, the removed node is in no In/Out map
+-- of a listed node, both listed nodes keep their figures.
+example : let ss : List (GSample Nat) := [{ frames := [1, 2, 3], w := 7, d := 0 }, { frames := [1, 2], w := 2, d := 0 }]
+    let K : List Nat → Bool := fun n => n != [1, 2]
+    (match trimNewTree id K (newTree ss) (newTree ss).shownNodes with
+     | .ok st => decide (tfind st.ins ([1], [1, 2, 3]) = some ⟨⟨7, 0⟩, true⟩) &&
+                 decide (tfind st.outs ([1], [1, 2, 3]) = some ⟨⟨7, 0⟩, true⟩) &&
+                 decide (tfind st.outs ([1], [1, 2]) = none) && decide (tfind st.ins ([1, 2], [1, 2, 3]) = none) &&
+                 decide (st.nodes = [([1], ⟨⟨0, 0⟩, ⟨9, 0⟩⟩), ([1, 2, 3], ⟨⟨7, 0⟩, ⟨7, 0⟩⟩)])
+     | _ => false) = true := by decide
+
+end TrimTree
+
+/-! ## composed with C08: the active order of a text report is the REGENERATED comparator
+
+`topN_is_prefix_of_sorted` above proves sortedness under the hypothesis `StrictTotal (order o)`.
+That hypothesis can never be met (`strictTotal_unsatisfiable`: two entries that differ only in the
+harness id are unordered both ways and yet different), so its last conjunct is vacuous.  Composed
+with C08 the statement becomes unconditional where it matters: `order o` equals the comparator
+denoted — by C08's interpreter `Order.lessOf` — by the descriptor list `genOrder o`
+(`Model/TrimOrder.lean`: `flatNameKeys` / `cumNameKeys`, which C08's per-run obligation
+`trim_orders_are_the_regenerated_ones` checks to be the lists `tools/extract` regenerates from
+graph.go), C08's generic theorems make it a strict weak order, and a strict weak order is all the
+sort needs.
+What remains a hypothesis, exactly:
+* `NoMin`: no flat/cum equals MinInt64 — Go's `abs64` leaves MinInt64 negative while C05's model
+  orders by |·| (`order_differs_at_minInt64`);
+* for UNIQUENESS of the arrangement only: distinct entries have distinct `fmt.Sprint(Info)` strings —
+  which holds for graph nodes keyed by NodeInfo when the infos are `SpaceFree` (C08's partial
+  theorem; without it `compareNodes_collision` of C08 applies). -/
+
+/-- `StrictTotal (order o)` is false for both orders: the comparators do not read the entry id. -/
+theorem strictTotal_unsatisfiable (o : TrimOpts) : ¬ StrictTotal (order o) := by
+  intro h
+  have h1 : order o ⟨0, [], [], 0, 0⟩ ⟨1, [], [], 0, 0⟩ = false := by unfold order; split <;> decide
+  have h2 : order o ⟨1, [], [], 0, 0⟩ ⟨0, [], [], 0, 0⟩ = false := by unfold order; split <;> decide
+  rcases h.total ⟨0, [], [], 0, 0⟩ ⟨1, [], [], 0, 0⟩ with h3 | h3 | h3
+  · rw [h1] at h3; cases h3
+  · rw [h2] at h3; cases h3
+  · cases h3
+
+/-- **`topN_is_prefix_of_sorted`, composed with C08 — no hypothesis on the comparator.**  For every
+option record and every entry list without MinInt64 weights: the hand-written order is the
+regenerated comparator of graph.go, which is a strict weak order; the survivors arranged by it have
+no inversion, and so has what is shown (a prefix of them); and that arrangement is the ONLY
+permutation of the survivors that passes `sort.IsSorted` — so it is what any correct `sort.Sort`
+yields — provided distinct entries have distinct `fmt.Sprint(Info)` strings. -/
+theorem topN_is_prefix_of_sorted_regenerated_order (o : TrimOpts) (es : List Entry) (hmin : ∀ e ∈ es, NoMin e) :
+    (∀ a b, NoMin a → NoMin b → order o a b = entryLess (genOrder o) a b) ∧
+    PV.Order.StrictWeak (entryLess (genOrder o)) ∧
+    (sortBy (order o) (afterCutoff o es)).Pairwise (fun a b => order o b a = false) ∧
+    (trimText o es).Pairwise (fun a b => order o b a = false) ∧
+    ((∀ a ∈ es, ∀ b ∈ es, a.infoStr = b.infoStr → a = b) →
+      ∀ l' : List Entry, l'.Perm (afterCutoff o es) → PV.Order.AdjSorted (order o) l' →
+        l' = sortBy (order o) (afterCutoff o es)) := by
+  have hsub : ∀ e ∈ afterCutoff o es, e ∈ es := fun e he => (afterCutoff_sublist o es).subset he
+  have hmin' : ∀ e ∈ afterCutoff o es, NoMin e := fun e he => hmin e (hsub e he)
+  have hsorted := sortBy_order_sorted o (afterCutoff o es) hmin'
+  refine ⟨fun a b ha hb => order_eq_entryLess o a b ha hb, entryLess_strictWeak o, hsorted,
+    hsorted.sublist (topN_prefix _ _).sublist, ?_⟩
+  intro hinj l' hperm hs
+  exact sortBy_order_unique o (afterCutoff o es) l' hmin'
+    (fun a ha b hb => hinj a (hsub a ha) b (hsub b hb)) hperm hs
+
+/-- **… for the entries of graph nodes** (`entryOfNode`: name = `PrintableName`, tie-break string =
+`fmt.Sprint(Info)`): the order is C08's `nodeLess` of the regenerated list on the nodes themselves
+(score map of CumNameOrder = Cum), and when the nodes are keyed by their NodeInfo and the infos are
+`SpaceFree`, the shown arrangement is the unique sorted one. -/
+theorem topN_sorted_for_graph_nodes (o : TrimOpts) (idOf : PV.GraphOrder.Node → Nat) (ns : List PV.GraphOrder.Node)
+    (hmin : ∀ n ∈ ns, n.flat ≠ PV.Order.minI64 ∧ n.cum ≠ PV.Order.minI64)
+    (hsf : ∀ n ∈ ns, PV.GraphOrder.SpaceFree n.info)
+    (hkey : ∀ a ∈ ns, ∀ b ∈ ns, a.info = b.info → a = b) :
+    let es := ns.map (fun n => entryOfNode (idOf n) n)
+    (∀ a ∈ ns, ∀ b ∈ ns, order o (entryOfNode (idOf a) a) (entryOfNode (idOf b) b) =
+        PV.GraphOrder.nodeLess (.field .Cum) (genOrder o) a b) ∧
+    (trimText o es).Pairwise (fun a b => order o b a = false) ∧
+    ∀ l' : List Entry, l'.Perm (afterCutoff o es) → PV.Order.AdjSorted (order o) l' →
+      l' = sortBy (order o) (afterCutoff o es) := by
+  intro es
+  have hmin' : ∀ e ∈ es, NoMin e := by
+    intro e he
+    obtain ⟨n, hn, rfl⟩ := List.mem_map.mp he
+    exact hmin n hn
+  obtain ⟨_, _, _, h4, h5⟩ := topN_is_prefix_of_sorted_regenerated_order o es hmin'
+  refine ⟨?_, h4, h5 (infoStr_inj_of_spaceFree idOf ns hsf hkey)⟩
+  intro a ha b hb
+  have ha' : NoMin (entryOfNode (idOf a) a) := hmin a ha
+  have hb' : NoMin (entryOfNode (idOf b) b) := hmin b hb
+  rw [order_eq_entryLess o _ _ ha' hb', entryLess_entryOfNode]
+
+/-- why `NoMin` remains: at MinInt64 Go's `abs64` (regenerated comparator) and |·| (C05's model)
+order differently. -/
+theorem order_differs_at_minInt64 :
+    lessFlat ⟨0, [], [], PV.Order.minI64, 0⟩ ⟨1, [], [], 5, 0⟩ = true ∧
+    entryLess flatNameKeys ⟨0, [], [], PV.Order.minI64, 0⟩ ⟨1, [], [], 5, 0⟩ = false := by
+  decide
+
+-- non-vacuity: the example entries above meet `NoMin` and have distinct tie-break strings
+example : let es : List Entry := [⟨0, [97], [97], 3, 10⟩, ⟨1, [98], [98], 7, 7⟩, ⟨2, [99], [99], 0, 4⟩]
+    (∀ e ∈ es, NoMin e) ∧ (∀ a ∈ es, ∀ b ∈ es, a.infoStr = b.infoStr → a = b) := by
+  refine ⟨?_, ?_⟩
+  · intro e he
+    simp only [List.mem_cons, List.mem_nil_iff, or_false] at he
+    rcases he with rfl | rfl | rfl <;> exact ⟨by decide, by decide⟩
+  · decide
 
 end PV.Props.C05
